@@ -220,13 +220,101 @@ Lemma put_all_ok : forall pieces st, unit_ok (fst st) -> Forall unit_ok pieces -
 Proof.
   induction pieces as [|p r IH]; intros st Ho Hp; [exact Ho|]. inversion Hp; subst. simpl. apply IH; [apply put_ok; assumption|assumption].
 Qed.
+(* digits *)
+Definition plainc (c : N) : bool := (32 <=? c) && (c <=? 126) && negb (c =? 34) && negb (c =? 92).
+Lemma plainc_body : forall l, forallb plainc l = true -> lex_run S_body l = Some S_body.
+Proof.
+  induction l as [|c l IH]; intros H; [reflexivity|]. simpl in H. apply andb_prop in H. destruct H as [Hc Hl].
+  unfold plainc in Hc. apply andb_prop in Hc. destruct Hc as [Hc N92]. apply andb_prop in Hc. destruct Hc as [Hc N34].
+  apply andb_prop in Hc. destruct Hc as [L U]. apply N.leb_le in L. apply N.leb_le in U.
+  apply negb_true_iff in N34, N92.
+  change (lex_run S_body (c :: l)) with (match lex_step S_body c with Some st' => lex_run st' l | None => None end).
+  assert (E : lex_step S_body c = Some S_body).
+  { unfold lex_step. rewrite N34, N92.
+    assert (c <? 32 = false) as -> by (apply N.ltb_ge; lia). assert (c <? 128 = true) as -> by (apply N.ltb_lt; lia). reflexivity. }
+  rewrite E. apply IH, Hl.
+Qed.
+Lemma dec_aux_plain : forall fuel n acc, forallb plainc acc = true -> forallb plainc (dec_aux fuel n acc) = true.
+Proof.
+  induction fuel as [|f IH]; intros n acc H; [exact H|]. cbn [dec_aux].
+  assert (P : plainc (48 + n mod 10) = true).
+  { assert (Hm : n mod 10 < 10) by (apply N.mod_lt; discriminate). remember (n mod 10) as m eqn:Em. clear Em. unfold plainc.
+    assert ((32 <=? 48 + m) = true) as -> by (apply N.leb_le; lia).
+    assert ((48 + m <=? 126) = true) as -> by (apply N.leb_le; lia).
+    assert ((48 + m =? 34) = false) as -> by (apply N.eqb_neq; lia).
+    assert ((48 + m =? 92) = false) as -> by (apply N.eqb_neq; lia). reflexivity. }
+  destruct (n / 10 =? 0); [cbn [forallb]; rewrite P; exact H|]. apply IH. cbn [forallb]. rewrite P. exact H.
+Qed.
+Lemma hex_digit_plain : forall d, d < 16 -> plainc (hex_digit d) = true.
+Proof.
+  intros d H. unfold hex_digit, plainc. destruct (d <? 10) eqn:E.
+  - apply N.ltb_lt in E.
+    assert ((32 <=? 48 + d) = true) as -> by (apply N.leb_le; lia). assert ((48 + d <=? 126) = true) as -> by (apply N.leb_le; lia).
+    assert ((48 + d =? 34) = false) as -> by (apply N.eqb_neq; lia). assert ((48 + d =? 92) = false) as -> by (apply N.eqb_neq; lia). reflexivity.
+  - apply N.ltb_ge in E.
+    assert ((32 <=? 87 + d) = true) as -> by (apply N.leb_le; lia). assert ((87 + d <=? 126) = true) as -> by (apply N.leb_le; lia).
+    assert ((87 + d =? 34) = false) as -> by (apply N.eqb_neq; lia). assert ((87 + d =? 92) = false) as -> by (apply N.eqb_neq; lia). reflexivity.
+Qed.
+Lemma hex_aux_plain : forall fuel n acc, forallb plainc acc = true -> forallb plainc (hex_aux fuel n acc) = true.
+Proof.
+  induction fuel as [|f IH]; intros n acc H; [exact H|]. cbn [hex_aux].
+  assert (P : plainc (hex_digit (n mod 16)) = true) by (apply hex_digit_plain, N.mod_lt; discriminate).
+  destruct (n / 16 =? 0); [cbn [forallb]; rewrite P; exact H|]. apply IH. cbn [forallb]. rewrite P. exact H.
+Qed.
+
+Lemma oct_aux_plain : forall fuel n acc, forallb plainc acc = true -> forallb plainc (oct_aux fuel n acc) = true.
+Proof.
+  induction fuel as [|f IH]; intros n acc H; [exact H|]. cbn [oct_aux].
+  assert (P : plainc (48 + n mod 8) = true).
+  { assert (Hm : n mod 8 < 8) by (apply N.mod_lt; discriminate). remember (n mod 8) as m eqn:Em. clear Em. unfold plainc.
+    assert ((32 <=? 48 + m) = true) as -> by (apply N.leb_le; lia).
+    assert ((48 + m <=? 126) = true) as -> by (apply N.leb_le; lia).
+    assert ((48 + m =? 34) = false) as -> by (apply N.eqb_neq; lia).
+    assert ((48 + m =? 92) = false) as -> by (apply N.eqb_neq; lia). reflexivity. }
+  destruct (n / 8 =? 0); [cbn [forallb]; rewrite P; exact H|]. apply IH. cbn [forallb]. rewrite P. exact H.
+Qed.
+Lemma digit_plain : forall n, plainc (48 + n mod 10) = true.
+Proof.
+  intros n. assert (Hm : n mod 10 < 10) by (apply N.mod_lt; discriminate). remember (n mod 10) as m eqn:Em. clear Em. unfold plainc.
+  assert ((32 <=? 48 + m) = true) as -> by (apply N.leb_le; lia).
+  assert ((48 + m <=? 126) = true) as -> by (apply N.leb_le; lia).
+  assert ((48 + m =? 34) = false) as -> by (apply N.eqb_neq; lia).
+  assert ((48 + m =? 92) = false) as -> by (apply N.eqb_neq; lia). reflexivity.
+Qed.
+Lemma dec_plain : forall n, forallb plainc (dec n) = true.
+Proof. intros n. apply dec_aux_plain. reflexivity. Qed.
+Lemma hex_plain : forall n, forallb plainc (hex n) = true.
+Proof. intros n. apply hex_aux_plain. reflexivity. Qed.
+Lemma sdec_plain : forall v, forallb plainc (sdec v) = true.
+Proof. intros v. unfold sdec. destruct (v <? _); [apply dec_plain|]. cbn [forallb]. rewrite dec_plain. reflexivity. Qed.
+Lemma d6_plain : forall n, forallb plainc (d6 n) = true.
+Proof. intros n. unfold d6. cbn [forallb]. rewrite !digit_plain. reflexivity. Qed.
+Lemma plain_unit : forall l, forallb plainc l = true -> unit_ok l.
+Proof. intros l H. unfold unit_ok. apply plainc_body, H. Qed.
+Lemma esc_pieces_ok : forall l, Forall unit_ok (map json_escape_char l).
+Proof. intros l. apply Forall_forall. intros x Hx. apply in_map_iff in Hx. destruct Hx as [c [<- _]]. apply esc_char_body. Qed.
+
 Lemma arg_pieces_ok : forall a, Forall unit_ok (arg_pieces a).
 Proof.
-  intros [raw|c]; simpl.
+  intros [raw|c|[nm|] v|v|tn size|neg k|v|v|v|v]; cbn [arg_pieces].
   - destruct (is_null_str raw); [repeat constructor|]. constructor; [reflexivity|].
-    apply Forall_app. split; [|repeat constructor].
-    apply Forall_forall. intros x Hx. apply in_map_iff in Hx. destruct Hx as [c [<- _]]. apply esc_char_body.
+    apply Forall_app. split; [apply esc_pieces_ok|repeat constructor].
   - constructor; [reflexivity|]. constructor; [apply esc_char_body|]. repeat constructor.
+  - constructor; [reflexivity|apply esc_pieces_ok].
+  - destruct (v =? 0); repeat constructor. apply plain_unit. cbn [app forallb]. rewrite hex_plain. reflexivity.
+  - destruct (100000 <? v); repeat constructor; apply plain_unit; [cbn [app forallb]; rewrite hex_plain; reflexivity|apply dec_plain].
+  - apply Forall_app. split.
+    + destruct tn as [nm|]; [|constructor]. destruct (name_eqb (cstr nm) lambda_name); [constructor|apply esc_pieces_ok].
+    + repeat constructor. unfold struct_tail. destruct (size =? 0); reflexivity.
+  - repeat constructor. apply plain_unit. rewrite !forallb_app. cbn [forallb]. rewrite dec_plain, d6_plain.
+    destruct neg; reflexivity.
+  - destruct ((v <=? 100000) || (W64 - 100000 <=? v)); [repeat constructor; apply plain_unit, sdec_plain|].
+    destruct ((4294901760 <? v) && (v <=? 4294967295)); repeat constructor; apply plain_unit.
+    + cbn [forallb]. rewrite dec_plain. reflexivity.
+    + cbn [app forallb]. rewrite hex_plain. reflexivity.
+  - repeat constructor. apply plain_unit, sdec_plain.
+  - destruct (v =? 0); repeat constructor. apply plain_unit. cbn [app forallb]. rewrite hex_plain. reflexivity.
+  - destruct (v =? 0); repeat constructor. apply plain_unit. cbn [forallb]. unfold oct. rewrite oct_aux_plain; reflexivity.
 Qed.
 Lemma args_loop_ok : forall args first st, unit_ok (fst st) -> unit_ok (fst (args_loop first args st)).
 Proof.
@@ -257,3 +345,27 @@ Proof.
   - apply N.leb_gt in E1. split; lia.
   - apply N.leb_gt in E1. apply N.leb_gt in E2. rewrite app_length, Nat2N.inj_add. split; lia.
 Qed.
+
+(* the code as found (before 767f11d) put the symbol name of a pointer argument raw into the JSON string *)
+Theorem json_ptr_legacy_refuted :
+  json_string_ok (quoted ([40] ++ ptr_text_legacy [102; 34; 103] ++ [41])) = false
+  /\ json_string_ok (quoted (args_text true [APtr (Some [102; 34; 103]) 4198912])) = true.
+Proof. vm_compute. split; reflexivity. Qed.
+
+(* the code as found (before the struct-name fix) put the type name of a struct argument raw into the JSON string *)
+Theorem json_struct_legacy_refuted :
+  json_string_ok (quoted ([40] ++ struct_text_legacy [110; 34; 109] 8 ++ [41])) = false
+  /\ json_string_ok (quoted (args_text true [AStruct (Some [110; 34; 109]) 8])) = true.
+Proof. vm_compute. split; reflexivity. Qed.
+(* the formats of the integer and floating-point arguments at their boundaries *)
+Example arg_formats :
+  args_text true [AAuto 100000; AAuto 100001; AAuto (W64 - 5); AAuto (W64 - 100001); AAuto 4294901761; AAuto 4294901760;
+                  ASint (W64 - 100001); AHex 0; AHex 255; AOct 0; AOct 8; AFlt true 129; AFlt false 1; AStruct None 0;
+                  AStruct (Some lambda_name) 4]
+  = (* (100000, 0x186a1, -5, 0xfffffffffffe795f, -65535, 0xffff0000, -100001, 0, 0xff, 0, 010, -2.015625, 0.015625, {}, {...}) *)
+    [40] ++ [49;48;48;48;48;48] ++ [44;32] ++ [48;120;49;56;54;97;49] ++ [44;32] ++ [45;53] ++ [44;32]
+    ++ [48;120;102;102;102;102;102;102;102;102;102;102;102;101;55;57;53;102] ++ [44;32] ++ [45;54;53;53;51;53] ++ [44;32]
+    ++ [48;120;102;102;102;102;48;48;48;48] ++ [44;32] ++ [45;49;48;48;48;48;49] ++ [44;32] ++ [48] ++ [44;32] ++ [48;120;102;102]
+    ++ [44;32] ++ [48] ++ [44;32] ++ [48;49;48] ++ [44;32] ++ [45;50;46;48;49;53;54;50;53] ++ [44;32] ++ [48;46;48;49;53;54;50;53]
+    ++ [44;32] ++ [123;125] ++ [44;32] ++ [123;46;46;46;125] ++ [41].
+Proof. vm_compute. reflexivity. Qed.
